@@ -279,11 +279,12 @@ func R(id, topic string, sender uint16) Step {
 }
 func S(topic string) Step { return Step{Kind: "S", Topic: topic} }
 
-// longLived: the local party sends on topic X once per epoch for 16 epochs (well beyond the expiry
-// of 6 epochs); a message arriving in every epoch must be handed over at once, in order.
-func longLived() []Step {
+// longLived: the local party sends on topic X once per epoch, for a number of epochs around and
+// beyond the expiry of 6 epochs; the message arriving in every epoch (after that epoch's send) must
+// be handed over, in order - the history ends right after such a message, for every length.
+func longLived(epochs int) []Step {
 	st := []Step{S("X")}
-	for i := 0; i < 16; i++ {
+	for i := 0; i < epochs; i++ {
 		st = append(st, Step{Kind: "tick"}, S("X"), R(fmt.Sprintf("m%02d", i), "X", 1), S("Y"))
 	}
 	return st
@@ -294,7 +295,11 @@ func Scenarios(thorough bool) []Scenario {
 	if thorough {
 		b3 = 3
 	}
-	return []Scenario{
+	var long []Scenario
+	for e := 5; e <= 20; e++ {
+		long = append(long, Scenario{Name: fmt.Sprintf("s12-long-lived-topic-%d-epochs", e), Threads: [][]Step{longLived(e)}, Bound: 0})
+	}
+	return append(long, []Scenario{
 		{Name: "1-R||S", Threads: [][]Step{{R("m1", "X", 1)}, {S("X")}}, Bound: 100},
 		{Name: "2-RR||S", Threads: [][]Step{{R("m1", "X", 1), R("m2", "X", 1)}, {S("X")}}, Bound: 100},
 		{Name: "3-R||R||S", Threads: [][]Step{{R("m1", "X", 1)}, {R("m2", "X", 2)}, {S("X")}}, Bound: b3},
@@ -313,7 +318,6 @@ func Scenarios(thorough bool) []Scenario {
 		{Name: "s9-limit1-two-senders", MaxTopics: 1, Threads: [][]Step{{R("m1", "A", 1), R("n1", "A", 2), S("A"), R("m2", "B", 1), R("n2", "B", 2), S("B"), R("m3", "C", 1), R("n3", "C", 2), S("C")}}, Bound: 0},
 		{Name: "s10-limit1-RR;S", MaxTopics: 1, Threads: [][]Step{{R("m1", "A", 1), R("m2", "A", 1), S("A")}}, Bound: 0},
 		{Name: "s11-limit3-exactly-at-limit", MaxTopics: 3, Threads: [][]Step{{R("m1", "A", 1), R("m2", "B", 1), R("m3", "C", 1), R("m4", "A", 1), R("m5", "B", 1), R("m6", "C", 1), S("A"), S("B"), S("C")}}, Bound: 0},
-		{Name: "s12-long-lived-topic", Threads: [][]Step{longLived()}, Bound: 0},
 		{Name: "s5-tick-R;S", Pre: []Step{{Kind: "tick"}}, Threads: [][]Step{{R("m1", "X", 1), S("X")}}, Bound: 0},
 		{Name: "13-Rnew||Sother", Threads: [][]Step{{R("m1", "Z", 1)}, {S("X")}}, Bound: 100},
 		{Name: "10-gc-stored-R||Sother", Pre: []Step{R("m0", "Z", 1)}, Threads: [][]Step{{R("m1", "Z", 1)}, {S("X")}}, Bound: 100},
@@ -321,5 +325,5 @@ func Scenarios(thorough bool) []Scenario {
 		{Name: "12-tick||S;Sother", Pre: []Step{R("m0", "Z", 1)}, Threads: [][]Step{{{Kind: "tick"}}, {S("X"), S("Y")}}, Bound: 100},
 		{Name: "8-stored-R||S", Pre: []Step{R("m0", "X", 1)}, Threads: [][]Step{{R("m1", "X", 1)}, {S("X")}}, Bound: 100},
 		{Name: "9-stored-RR||S", Pre: []Step{R("m0", "X", 1)}, Threads: [][]Step{{R("m1", "X", 1), R("m2", "X", 1)}, {S("X")}}, Bound: 100},
-	}
+	}...)
 }
